@@ -202,7 +202,18 @@ func runC13(r *rt.Run, tier string) {
 	}
 
 	// how the iteration must have ended
-	hdrBad := func(j int) bool { return j < len(ms) && overlaps(badLo, badHi, ms[j].HdrOff, ms[j].HdrOff+60) }
+	// Next(j) touches header j and (to make sure the member is complete) the
+	// last data byte of member j
+	hdrBad := func(j int) bool {
+		if j >= len(ms) {
+			return false
+		}
+		m := ms[j]
+		if overlaps(badLo, badHi, m.HdrOff, m.HdrOff+60) {
+			return true
+		}
+		return len(m.Data) > 0 && overlaps(badLo, badHi, m.DataOff+len(m.Data)-1, m.DataOff+len(m.Data))
+	}
 	magicBad := overlaps(badLo, badHi, 0, 8)
 	if loadErr != nil {
 		if !magicBad {
@@ -219,7 +230,7 @@ func runC13(r *rt.Run, tier string) {
 	}
 	if firstBad >= 0 {
 		if returned > firstBad {
-			r.Violate("C13/member-from-failed-header", prof, "member %d was returned although its header lies on the failing disk range", firstBad)
+			r.Violate("C13/member-from-failed-header", prof, "member %d was returned although its header (or last data byte) lies on the failing disk range", firstBad)
 		} else if returned < firstBad {
 			r.Violate("C13/members-missing", prof+"/eio", "iteration stopped after %d members; the I/O error is in header %d (err=%v)", returned, firstBad, nextErr)
 		} else if nextErr == io.EOF {
